@@ -539,14 +539,15 @@ func (m *Manager) cleanUp() []peer.ID {
 		if time.Since(p.createdAt) > m.params.PoolValidationTimeout {
 			delete(m.pools, h)
 
+			peersList := p.allPeers()
 			log.Debug("blacklisting datahash with all corresponding peers",
 				"hash", h,
-				"peer_list", p.peersList)
+				"peer_list", peersList)
 			// blacklist hash
 			m.blacklistedHashes.Add(h, struct{}{})
 
 			// blacklist peers
-			for _, peer := range p.peersList {
+			for _, peer := range peersList {
 				addToBlackList[peer] = struct{}{}
 			}
 		}
